@@ -1,5 +1,5 @@
 From Coq Require Import ZArith String List Bool.
-From Flox Require Import ListX Val Agg ValAlg Hom Registry.
+From Flox Require Import ListX Val Agg ValAlg Hom Spec Pipeline PipelineLaw Registry Cases.
 Import ListNotations.
 
 Lemma registry_lawful : forallb lawful_dec aggregations = true.
@@ -35,6 +35,46 @@ Proof.
   intros ch cb f H t Hwf.
   exact (tree_law (alg_of ch cb) (lawful_triple_Lawful _ _ _ H) t Hwf).
 Qed.
+
+(* ---- the per-call specialisation (_initialize_aggregation), observed by T1 ---- *)
+Fixpoint ops_eqb (a b : list opname) : bool :=
+  match a, b with
+  | [], [] => true
+  | x :: a', y :: b' => opname_eqb x y && ops_eqb a' b'
+  | _, _ => false
+  end.
+
+Definition init_row_ok
+  (row : string * Z * string * option (Z * option (list opname) * option (list opname) * list fillv)) : bool :=
+  let '(name, _, dt, r) := row in
+  match r with
+  | None => true                                   (* the call was refused *)
+  | Some (mc, chs, cbs, fills) =>
+      match find_agg name with
+      | None => false
+      | Some a =>
+          match a_rtype a, chs, cbs with
+          | Reduce, Some c, Some b =>
+              (* nanfirst/nanlast on non-float data have no NaN fill: dask_groupby_agg then always takes the
+                 grouped combine, which never uses the intermediate fill *)
+              let fills' := if (String.eqb name "nanfirst" || String.eqb name "nanlast") && negb (String.eqb dt "float64")
+                            then eff_fill a mc else fills in
+              lawful_triples c b fills' && ops_eqb (eff_chunk a mc) c && ops_eqb (eff_combine a mc) b
+          | Reduce, None, None => true
+          | ArgReduce, Some c, Some b =>
+              match c, b, fills with
+              | [_; _], [_; _], [_; _] => lawful_arg a && ops_eqb (eff_chunk a mc) c && ops_eqb (eff_combine a mc) b
+              | [_; _; n], [_; _; s], [_; _; f] =>
+                  lawful_arg a && lawful_triple n s f && ops_eqb (eff_chunk a mc) c && ops_eqb (eff_combine a mc) b
+              | _, _, _ => false
+              end
+          | _, _, _ => false
+          end
+      end
+  end.
+
+Lemma initialised_lawful : forallb init_row_ok initialised = true.
+Proof. vm_compute. reflexivity. Qed.
 
 (* user-defined examples: "range = max - min" carried as the pair (max, min) *)
 Example user_pair_lawful :
